@@ -6,6 +6,7 @@
 #include <vector>
 
 #include <gdstk/gdstk.hpp>
+#include <clipper/clipper.hpp>
 
 #include "common.hpp"
 
